@@ -14,9 +14,13 @@ def _is_num(t):
     return z3.is_int_value(t) or z3.is_rational_value(t)
 
 
+_POS = {}  # divisor id -> list of (frozenset of path-condition ids, verdict); verdicts are monotone in the pc
+
+
 class Normalizer:
-    def __init__(self, pc, timeout_ms=2000):
+    def __init__(self, pc, timeout_ms=800):
         self.pc = list(pc)
+        self.pcids = frozenset(f.get_id() for f in self.pc)
         self.timeout = timeout_ms
         self.pos_cache = {}
         self.cache = {}
@@ -29,12 +33,22 @@ class Normalizer:
             v = z3.simplify(d > 0)
             r = z3.is_true(v)
         else:
-            s = z3.Solver()
-            s.set("timeout", self.timeout)
-            for f in self.pc:
-                s.add(f)
-            s.add(z3.Not(d > 0))
-            r = s.check() == z3.unsat
+            r = None
+            for (ids, verdict) in _POS.get(k, ()):
+                if verdict and ids <= self.pcids:
+                    r = True  # proved positive under fewer assumptions
+                    break
+                if not verdict and self.pcids <= ids:
+                    r = False  # could not be proved even with more assumptions
+                    break
+            if r is None:
+                s = z3.Solver()
+                s.set("timeout", self.timeout)
+                for f in self.pc:
+                    s.add(f)
+                s.add(z3.Not(d > 0))
+                r = s.check() == z3.unsat
+                _POS.setdefault(k, []).append((self.pcids, r))
         self.pos_cache[k] = r
         return r
 
